@@ -63,6 +63,8 @@ def rule_dryrun(ctx, px):
                 # calling a parameter / loop variable: a callback.  Accept pure-by-construction callbacks:
                 if name in PURE_CALLBACKS.get(f.short, ()):
                     continue
+                if _only_bound_to_effect_free_classes(px, f, name):
+                    continue
                 ctx.ob(R, f.module.rel, f"{f.short} :: callback {name}(...)", False,
                        f"callback invoked without a `not is_dryrun` guard via {' -> '.join(chain)}", c.lineno, path=list(chain))
     ctx.unit("dryrun_region_functions", len(funcs))
@@ -102,6 +104,33 @@ def rule_dryrun(ctx, px):
                            "" if ok else "call to the writing routine is not under `not is_dryrun`", c.lineno)
         if not found:
             raise AnalysisError(f"anchor missing: call to {callee} in {qual}")
+
+
+def _only_bound_to_effect_free_classes(px, f, param: str) -> bool:
+    """`param(...)` where every call of f in the package passes, for that parameter, the name of a package class whose constructor
+    chain has no file-system effect: the call constructs an object, it does not run user code"""
+    params = [a.arg for a in f.node.args.args]
+    if param not in params:
+        return False
+    pos = params.index(param)
+    if f.cls is not None and params and params[0] in ("self", "cls") and not any(d == "staticmethod" for d in f.decorators):
+        pos -= 1
+    sites = []
+    for g in px.all_funcs:
+        for c in ast.walk(g.node):
+            if isinstance(c, ast.Call) and ((isinstance(c.func, ast.Attribute) and c.func.attr == f.name) or (isinstance(c.func, ast.Name) and c.func.id == f.name)):
+                a = c.args[pos] if 0 <= pos < len(c.args) else next((k.value for k in c.keywords if k.arg == param), None)
+                sites.append(a)
+    if not sites:
+        return False
+    classes = {c.name: c for m in px.modules.values() for c in m.classes.values()}
+    for a in sites:
+        if not (isinstance(a, ast.Name) and a.id in classes):
+            return False
+        init = classes[a.id].mro_lookup("__init__")
+        if init is not None and list(effects.fs_effects(init.module, init.node)):
+            return False
+    return True
 
 
 # callbacks that are pure by construction: (function short) -> names
